@@ -286,6 +286,52 @@ fn zero_sized_frames(rep: &mut Report) {
     }
 }
 
+/// ONE chunk of more than 2^24 frames (the largest count a single-precision float holds exactly):
+/// every frame of the chunk must be the source frame times the weight the standalone window
+/// iterator of the same length yields at that position - bit for bit, all 16.7 million of them.
+fn long_bin(rep: &mut Report) {
+    for b in [(1usize << 24) + 1, (1usize << 24) + 3] {
+        let case = format!("kind=longbin;b={}", b);
+        let r = vmon::catch(|| -> Result<u64, String> {
+            let frames: Vec<f32> = (0..b + 5).map(|i| ((i % 251) as f32 + 1.0) / 256.0).collect();
+            let mut wr: Windower<f32, Hann> = Windower::new(&frames[..], b, b);
+            if wr.size_hint() != (1, Some(1)) {
+                return Err(format!("size_hint = {:?} for one chunk", wr.size_hint()));
+            }
+            let chunk = wr.next().ok_or("no chunk")?;
+            let mut weights = Window::<f32, Hann>::new(b);
+            let mut n = 0u64;
+            for (j, got) in chunk.take(b).enumerate() {
+                let w = weights.next().ok_or("standalone window ended early")?;
+                let want = frames[j].mul_amp(w);
+                if got.to_bits() != want.to_bits() {
+                    return Err(format!("frame {} of the chunk = {:e}, but frame * w[{}] of the standalone window of the same length = {:e} (weight {:e})", j, got, j, want, w));
+                }
+                n += 1;
+            }
+            if n != b as u64 {
+                return Err(format!("chunk yielded {} frames, bin {}", n, b));
+            }
+            if wr.next().is_some() {
+                return Err("a second chunk was yielded".into());
+            }
+            Ok(n)
+        });
+        match r {
+            Ok(Ok(n)) => ev(n),
+            Ok(Err(d)) => {
+                rep.violation("windower|bin_above_2_pow_24|wrong_chunk_content", format!("bin {}: {}", b, d), case);
+                return;
+            }
+            Err(m) => {
+                rep.violation("windower|bin_above_2_pow_24|panic", format!("bin {}: {}", b, m), case);
+                return;
+            }
+        }
+        rep.hit("windower_bin_above_2_pow_24");
+    }
+}
+
 fn windower_all(rep: &mut Report, l: usize, b: usize, h: usize) {
     if let Err(m) = vmon::catch(std::panic::AssertUnwindSafe(|| windower_all_inner(rep, l, b, h))) {
         rep.violation("windower|panic", format!("L={} bin={} hop={}: panicked: {}", l, b, h, m), format!("kind=windower;w=any;fmt=any;ch=0;l={};b={};h={}", l, b, h));
@@ -335,6 +381,8 @@ fn main() {
         match m["kind"].as_str() {
             "fn" => check_window_fns(&mut rep, 10, 0, 0),
             "iter" => check_window_iter(&mut rep, m["n"].parse().unwrap()),
+            "zst" => zero_sized_frames(&mut rep),
+            "longbin" => long_bin(&mut rep),
             _ => windower_all(&mut rep, m["l"].parse().unwrap(), m["b"].parse().unwrap(), m["h"].parse().unwrap()),
         }
         flush_tl(&mut rep);
@@ -345,6 +393,8 @@ fn main() {
     rep.oblige("windower_l_equals_bin", 1);
     rep.oblige("windower_l_less_than_bin", 1);
     rep.oblige("windower_hop_ge_remaining", 1);
+    rep.oblige("windower_bin_above_2_pow_24", 2);
+    long_bin(&mut rep);
     if usize::BITS >= 64 {
         rep.oblige("windower_over_zero_sized_frames", 9);
         zero_sized_frames(&mut rep);
